@@ -214,6 +214,9 @@ theorem C15_append_only (m : M) :
           obtain ⟨s', op⟩ := so
           rcases shape s' (Or.inl ⟨op, hp⟩) with rfl | ⟨b, p, rfl⟩ <;> rfl
       · rfl
+    case beginDeal =>
+      left; unfold step; rw [hctl]; simp only []
+      (repeat' split) <;> first | rfl | (simp only [cont_st]; unfold dealSetup; simp only []; split <;> rfl)
     all_goals (left; unfold step; rw [hctl]; simp only []; (repeat' split) <;> rfl)
 
 /-- lifted to whole runs: whatever the machine does (any operation with any arguments, the whole
